@@ -512,20 +512,25 @@ def rule_stable_sets(ctx, ix):
                 out.append(x)
         return out
 
+    G = {"dict": S.Obj("dictclass", fromkeys=lambda it, v=None: dict.fromkeys(it, v))}
+    all_meths = {}
     for cls in ("StableSet", "StableFrozenSet"):
-        meths = {f.name: f.node for q, f in ix.funcs.items() if q.rsplit(".", 1)[0] == f"tensora._stable_set.{cls}"}
-        if "__init__" not in meths or "__iter__" not in meths:
+        all_meths[cls] = {f.name: f.node for q, f in ix.funcs.items() if q.rsplit(".", 1)[0] == f"tensora._stable_set.{cls}"}
+        if "__init__" not in all_meths[cls] or "__iter__" not in all_meths[cls]:
             raise AnalysisError(f"anchor vanished: {cls}.__init__/__iter__")
-        G = {"dict": S.Obj("dictclass", fromkeys=lambda it, v=None: dict.fromkeys(it, v))}
 
-        def make(*items, _cls=cls, _meths=meths, _G=G):
+        def make(*items, _cls=cls, _meths=all_meths[cls], _G=G):
             o = S.Obj(_cls, __methods__=_meths)
             outs = list(S.explore(_meths["__init__"], [o, *items], globals_=_G))
             if len(outs) != 1 or outs[0][1][0] != "return":
                 raise S.Uninterpretable(f"{_cls}.__init__: {outs[0][1] if outs else 'no outcome'}")
             return o
 
-        G[cls] = make
+        # the class: callable (constructor) and usable in isinstance; each class may mention the other
+        G[cls] = S.CallableObj("Class", make, name=cls)
+    for cls in ("StableSet", "StableFrozenSet"):
+        meths = all_meths[cls]
+        make = G[cls]
 
         def run(o, m, *args, _meths=meths, _G=G):
             outs = list(S.explore(_meths[m], [o, *args], globals_=_G))
